@@ -41,7 +41,7 @@ ASSUMPTIONS = ['the single-mode routines (jacobi, Qbfs, Qcon, Q2d, zernike_nm) d
                'terms, observed 1e-6), 2e-4 for sum_of_2d_modes and lstsq; 1e-8 * cond * |c| for fits',
                'caller-provided work arrays (alphas=) are zero-initialised with the documented shape, as _initialize_alphas makes them',
                'a coefficient vector may be any sequence of real numbers (list, tuple, ndarray of a floating or integer dtype, numpy scalars)']
-REQUIRED = ['alias.arguments-intact', 'sum_of_2d_modes', 'jacobi_sum_clenshaw', 'clenshaw_qbfs', 'compute_z_zprime_Qbfs.sag',
+REQUIRED = ['alias.arguments-intact', 'alias.result-stable', 'sum_of_2d_modes', 'jacobi_sum_clenshaw', 'clenshaw_qbfs', 'compute_z_zprime_Qbfs.sag',
             'compute_z_zprime_Qcon.sag', 'compute_z_zprime_Q2d.sag', 'Q2d_nm_c_to_a_b.structure',
             'Q2d_nm_c_to_a_b->compute_z_zprime_Q2d', 'lstsq.solution', 'lstsq.recovers-synthesis',
             'lstsq.ignores-exactly-nonfinite', 'pvr.consumer']
@@ -320,7 +320,7 @@ def coef_sets(rng, nmax, quick):
 def run_jacobi(ctx, counter):
     from prysm.polynomials import jacobi, jacobi_sum_clenshaw
     nmax = ctx.pick(12, 60)
-    params = [(-0.5, -0.5), (0.5, 0.5), (-0.5, 0.5), (0.5, -0.5), (0, 0), (0, 4), (0.3, -0.3), (-0.3, -0.7), 'rand', 'rand']
+    params = [(-0.5, -0.5), (0.5, 0.5), (-0.5, 0.5), (0.5, -0.5), (0, 0), (0, 4), (0.3, -0.3), (-0.3, -0.7), 'rand', 'rand'] + ['rand'] * ctx.pick(0, 30)
     for pi, par in enumerate(params):
         rng0 = case_rng('jac-sets', pi)
         for si, (sl, s) in enumerate(coef_sets(rng0, nmax, ctx.quick)):
@@ -349,18 +349,19 @@ def run_qbfs_qcon(ctx, counter):
     from prysm.polynomials import Qbfs, Qcon
     from prysm.polynomials.qpoly import clenshaw_qbfs, compute_z_zprime_Qbfs, compute_z_zprime_Qcon
     nmax = ctx.pick(12, 60)
-    rng0 = case_rng('q-sets')
-    for si, (sl, s) in enumerate(coef_sets(rng0, nmax, ctx.quick)):
+    for rep in range(ctx.pick(1, 12)):
+      rng0 = case_rng('q-sets', rep) if rep else case_rng('q-sets')
+      for si, (sl, s) in enumerate(coef_sets(rng0, nmax, ctx.quick)):
         counter[0] += 1
         if not ctx.mine(counter[0]):
             continue
-        rng = case_rng('q', si)
+        rng = case_rng('q', si, rep) if rep else case_rng('q', si)
         for xl, u in xsets(rng, 0.0, 1.0):
             arg = s if (si % 2) else np.array(s)
             with quiet():
                 ref_b, scale_b = explicit_sum(s, lambda k: Qbfs(k, u))
                 ref_c, scale_c = explicit_sum(s, lambda k: Qcon(k, u))
-            desc = {'fn': 'clenshaw_qbfs', 'cs': s if len(s) <= 6 else len(s), 'coefs': sl, 'sub': si, 'x': xl, 'class': f'clenshaw_qbfs:{sl}:{xl}'}
+            desc = {'fn': 'clenshaw_qbfs', 'cs': s if len(s) <= 6 else len(s), 'coefs': sl, 'sub': [rep, si], 'x': xl, 'class': f'clenshaw_qbfs:{sl}:{xl}'}
             ctx.case(desc, nontrivial=any(v != 0 for v in s))
             with guard('clenshaw_qbfs', desc, lenclass(len(s)), [lenclass(len(s))]):
                 got = clenshaw_qbfs(arg, u * u)
@@ -485,7 +486,7 @@ def run_q2d(ctx, counter):
     from prysm.polynomials import Q2d
     from prysm.polynomials.qpoly import Q2d_nm_c_to_a_b, compute_z_zprime_Q2d
     nmax = ctx.pick(12, 30)
-    reps = ctx.pick(8, 240)
+    reps = ctx.pick(8, 800)
     for rep in range(reps):
         rng0 = case_rng('q2d-sets', rep)
         for si, (label, nms, coefs) in enumerate(q2d_term_sets(rng0, nmax, ctx.quick)):
@@ -570,7 +571,7 @@ def run_lstsq(ctx, counter):
     shapes = [(8, 9), (12, 12), (5, 16), (1, 24)] if ctx.quick else [(8, 9), (12, 12), (5, 16), (1, 24), (24, 17), (33, 32), (16, 1), (64, 65), (3, 200), (128, 4)]
     kinds = ['zernike', 'q2d', 'legendre-xy', 'single']
     fills = ['nan', '+inf', '-inf', 'mixed']
-    reps = ctx.pick(4, 48)
+    reps = ctx.pick(4, 140)
     for rep in range(reps):
         for shi, shape in enumerate(shapes):
             for kind in kinds:
@@ -724,6 +725,26 @@ def fn_of(label):
     return label.split(':')[0].split('(')[0]
 
 
+KEPT = []       # (routine, array a fast path returned, snapshot taken on return)
+
+
+def keep(fn, got):
+    if isinstance(got, np.ndarray) and got.ndim >= 1:
+        KEPT.append((fn, got, got.copy()))
+    if len(KEPT) > 3000:
+        check_kept()
+
+
+def check_kept():
+    """Class A: an array returned earlier must not have been changed by the calls made since (a result that is a view of a shared
+    work array, or of an argument that a later call overwrites, no longer equals the explicit sum)."""
+    for fn, got, snap in KEPT:
+        CTX.require('alias.result-stable', np.array_equal(got, snap, equal_nan=True), f'C10/{fn}/result-changed-by-later-call',
+                    f'{fn}: an array returned earlier was modified by a later call (it no longer equals the explicit sum it was compared with)',
+                    {'fn': fn, 'shape': list(got.shape), 'class': f'{fn}:result-stability'})
+    KEPT.clear()
+
+
 def path_check(ctx, label, fast, mode, cobj, c0, u, u0, desc, keytail, f32=False, coefs_as='list', az=''):
     """fast(cobj, u) against the explicit sum of the PRISTINE coefficients c0 over the single-mode routine at the pristine points u0."""
     fn = fn_of(label)
@@ -749,6 +770,7 @@ def path_check(ctx, label, fast, mode, cobj, c0, u, u0, desc, keytail, f32=False
                 except Exception:  # noqa
                     pass
         compare(mon, got, ref, scale, key, f'{fn} != explicit sum of coefficient * mode', desc, rtol=rt, recheck=recheck, arrays=[u])
+        keep(fn, got)
 
 
 def alias_coefs(ctx):
@@ -863,7 +885,8 @@ def history_units(ctx, variant):
     PT = paths()
     u = np.array([0.0, 0.21875, 0.53125, 0.84375, 1.0])
     u32 = u[1:4].astype(np.float32)
-    lens = [3, 6, 19, 42, 18, 4, 41, 1, 2] if variant != 'f64-long-then-short' else [42, 19, 41, 18, 6, 3, 1, 4, 2]
+    # lengths come back with new coefficients (same work-array shapes, different content)
+    lens = [3, 6, 19, 42, 18, 4, 41, 1, 2, 6, 19, 3] if variant != 'f64-long-then-short' else [42, 19, 41, 18, 6, 3, 1, 4, 2, 19, 6, 42]
     HISTORY[0] = variant
     try:
         clear_caches()
@@ -1017,9 +1040,11 @@ def run_hardening(ctx, counter):
     for fn in (alias_coefs, container_units, layout_units, cfg32_units, kwarg_units, repeat_lstsq):
         if mine():
             fn(ctx)
+            check_kept()
     for lens in ctx.pick([(19,), (41,), (60,)], [(19, 41), (60, 80), (100,), (150,)]):
         if mine():
             high_units(ctx, lens)
+    check_kept()
 
 
 def run(ctx):
